@@ -157,6 +157,12 @@ pub fn module_level_cases() -> Vec<Case> {
         (Ty::string(Charset::Utf8, Size::Any), Lit::Str(":x,".into())),
         (Ty::string(Charset::Utf8, Size::Any), Lit::Str(" ".into())),
         (Ty::string(Charset::Utf8, Size::Any), Lit::Str("{ [ ] }".into())),
+        // X.680 12.6: nothing within a cstring starts or ends a comment
+        (Ty::string(Charset::Utf8, Size::Any), Lit::Str("a--b".into())),
+        (Ty::string(Charset::Utf8, Size::Any), Lit::Str("-- x".into())),
+        (Ty::string(Charset::Utf8, Size::Any), Lit::Str("a /* b".into())),
+        (Ty::string(Charset::Utf8, Size::Any), Lit::Str("a */ b".into())),
+        (Ty::string(Charset::Utf8, Size::Any), Lit::Str("/* x */".into())),
         (Ty::string(Charset::Ia5, Size::Any), Lit::Str("ia5".into())),
         (Ty::string(Charset::Numeric, Size::Any), Lit::Str("12 3".into())),
         (Ty::string(Charset::Printable, Size::Any), Lit::Str("Pr-1".into())),
@@ -177,6 +183,7 @@ pub fn module_level_cases() -> Vec<Case> {
         (Ty::Bool, Lit::Bool(false)),
         (Ty::string(Charset::Utf8, Size::Any), Lit::Str("hi there".into())),
         (Ty::string(Charset::Utf8, Size::Any), Lit::Str(" (x) ".into())),
+        (Ty::string(Charset::Utf8, Size::Any), Lit::Str("a--b /*c".into())),
         (Ty::string(Charset::Ia5, Size::Range(0, Some(9), false)), Lit::Str("x".into())),
         (Ty::oct(Size::Any), Lit::Hex(vec![0xDE, 0xAD])),
         (Ty::r("Colour"), Lit::Enum("green".into())),
